@@ -203,6 +203,9 @@ pub fn cow_borrowed(x: &RoaringBitmap) -> (r: RoaringBitmap) ensures r@ == x@ { 
 // stand-in fails with `Error::Heed(_)`, every file-system stand-in with `Error::Io`.
 pub enum MdbError { KeyExist, MapFull, Other }
 pub enum HeedError { Io, Mdb(MdbError), Encoding, Decoding, Other }
+/// `Result::unwrap` needs `E: Debug` to type-check (a change that unwraps a fallible call must reach the verifier, which then rejects the unwrap)
+#[verifier::external]
+impl core::fmt::Debug for Error { fn fmt(&self, f: &mut core::fmt::Formatter<'_>) -> core::fmt::Result { Ok(()) } }
 #[allow(inconsistent_fields)]
 pub enum Error {
     Heed(HeedError),
